@@ -44,7 +44,8 @@ FsOfJson(j) ==
 NoCall == [fn |-> "none"]
 
 InitG == [scen |-> "", mode |-> "clean", src |-> <<>>, snap |-> <<>>, partial |-> {}, owner |-> <<>>, winners |-> <<>>, calls |-> <<>>,
-          saved |-> <<>>, healthy |-> EmptyFs, damaged |-> FALSE, dmgdel |-> FALSE, adopt |-> FALSE]
+          saved |-> <<>>, healthy |-> EmptyFs, damaged |-> FALSE, dmgdel |-> FALSE, dmghow |-> "",
+          dmgkey |-> [t |-> "", b |-> -1, n |-> -1, h |-> "", s |-> ""], adopt |-> FALSE]
 
 V(mon, detail) == {<<g.scen, mon, l, ToString(detail)>>}
 If(c, S) == IF c THEN S ELSE {}
@@ -217,8 +218,11 @@ BackupRetMonitors(r, c) ==
   \cup If(r.timeout, {<<"Hang", "backup">>})
   \cup If(faultfree /\ (~success \/ (cleanStart /\ r.mon_errors # 0)),
           {<<"BackupNotClean", <<r.res, r.errors, r.mon_list>> >>})
-  \cup If(~r.crashed /\ ~good /\ (silent \/ (faultfree /\ success)),
+  \cup If(~r.crashed /\ ~good /\ ~g.damaged /\ (silent \/ (faultfree /\ success)),
           {<<"CompleteSuccessWrong", <<b, IF b # -1 /\ HeadOK(fs, b) THEN TreeDiff(c.want, RestoreOf(fs, b)) ELSE {}>> >>})
+  \* C10: after a stored file was deleted or emptied a new backup completes and restores exactly
+  \cup If(g.damaged /\ g.dmghow \in {"delete", "trunc0"} /\ ~c.injected /\ ~r.panic /\ (r.res # "ok" \/ r.errors # 0 \/ ~good),
+          {<<"BackupAfterDamage", <<g.dmghow, r.res, r.errors, r.mon_list>> >>})
   \cup If(r.res = "ok" /\ ~r.crashed /\ r.written_blocks # c.nblk, {<<"WrittenBlocksStat", <<r.written_blocks, c.nblk>> >>})
   \cup If(success /\ ~r.crashed /\ faultfree /\ b # -1,
           {<<"NotReused", p>> : p \in NotReused(c.fs0, fs, b)}
@@ -260,6 +264,34 @@ DoRet(r) ==
 (***************************************************************************)
 AllReadable(f, es) == \A e \in SeqRange(es) : EntryReadable(f, e)
 
+\* C10: containment of single-file damage, judged on a full restore of version b.
+\* h = archive before the damage, f = after, T = the restored tree.
+AncestorsAreDirs(T, p) == \A i \in 1..(Len(p) - 1) : SubSeq(p, 1, i) \in DOMAIN T /\ T[SubSeq(p, 1, i)].k = "Dir"
+
+ContainmentMonitors(h, f, b, T, loud, nerr, opened, how, dk) ==
+    LET hl == StitchOf(h, b)
+        \* the entry's own index hunk or one of its blocks is the damaged file
+        Affected(e) == \/ dk.t = "Block" /\ \E i \in 1..Len(e.a) : e.a[i].h = dk.h
+                       \/ dk.t = "Hunk" /\ dk.b \in Bands(h) /\ dk.n \in DOMAIN h.bands[dk.b].hunks
+                                        /\ e \in SeqRange(h.bands[dk.b].hunks[dk.n].es)
+        fl == StitchOf(f, b)
+        HT == RestoreOf(h, b)
+        \* file entries still listed unchanged whose blocks are all intact and unchanged
+        untouched == {e \in SeqRange(fl) : e.k = "File" /\ e \in SeqRange(hl) /\ EntryReadable(f, e) /\ EntryReadable(h, e)
+                         /\ FileBytes(f, e) = FileBytes(h, e)}
+        wrong == {e.p : e \in {x \in untouched : AncestorsAreDirs(T, x.p) /\ (x.p \notin DOMAIN T \/ T[x.p] # HT[x.p])}}
+        \* files of the healthy version that did not come back exactly
+        lostfiles == {e.p : e \in {x \in SeqRange(hl) : x.k = "File" /\ Affected(x)
+                                          /\ (x.p \notin DOMAIN T \/ T[x.p] # HT[x.p])}}
+    IN
+       \* ("in every version that still opens")
+       If(opened, {<<"UntouchedNotRestored", p>> : p \in wrong})
+  \cup If(how \in {"delete", "trunc0", "half", "garbage"} /\ lostfiles # {} /\ ~loud, {<<"AffectedSilent", lostfiles>>})
+  \* a block that is gone or no longer verifies: every file that needs it is reported, one by one
+  \* (a flipped bit counts when the block no longer decodes to content matching its name)
+  \cup If(dk.t = "Block" /\ ~BlockOK(f, dk.h) /\ lostfiles # {} /\ nerr < Cardinality(lostfiles),
+          {<<"AffectedSilent", <<"per-file", lostfiles, nerr>> >>})
+
 RestoreMonitors(r) ==
     LET T0  == TreeOfNodes(r.tree)
         M   == SeqRange(r.match)
@@ -289,6 +321,11 @@ RestoreMonitors(r) ==
   \cup If(judged /\ r.res = "ok" /\ AllReadable(fs, es) /\
              TreeSel(T, S, {}) # (IF plain THEN RestoreOf(fs, b) ELSE TreeOfEntries(fs, es)),
           {<<"RestoreDiffersFromListing", <<b, TreeDiff(IF plain THEN RestoreOf(fs, b) ELSE TreeOfEntries(fs, es), TreeSel(T, S, {}))>> >>})
+  \cup (IF g.damaged /\ plain /\ r.band >= 0 /\ r.dest # "nonempty" /\ ~r.panic /\ ~r.timeout
+            /\ HeadOK(fs, r.band) /\ HeadOK(g.healthy, r.band)
+        THEN ContainmentMonitors(g.healthy, fs, r.band, T0, r.res # "ok" \/ r.mon_errors > 0,
+                                 IF r.res = "ok" THEN r.mon_errors ELSE 1000, r.res = "ok", g.dmghow, g.dmgkey)
+        ELSE {})
   \cup If(judged /\ r.res = "ok" /\ plain /\ Complete(fs, b) /\ b \in (DOMAIN g.snap) \ g.partial /\ T # g.snap[b],
           {<<"RestoreDiffersFromSnapshot", <<b, TreeDiff(g.snap[b], T)>> >>})
 
@@ -316,8 +353,12 @@ ValidateMonitors(r) ==
   \* header exists (the statement's wording); a head-less leftover is outside the clause
   \cup If(~g.damaged /\ g.mode = "clean" /\ loud /\ (\A b \in Bands(fs) : HeadOK(fs, b)),
           {<<"ValidateFalseAlarm", <<r.res, r.mon_list>> >>})
-  \cup If(g.damaged /\ ~r.panic /\ ~loud /\ DamageMatters(g.healthy, fs) /\ (~r.quick \/ g.dmgdel),
-          {<<"ValidateSilent", r.quick>>})
+  \* Damage must be reported when some version no longer restores exactly -- unless what is left is
+  \* itself a state fault-free operation can produce (e.g. the last hunk of an interrupted version
+  \* gone): no validator can tell that from health.  Quick validation answers for missing files.
+  \cup If(g.damaged /\ ~r.panic /\ ~loud /\ DamageMatters(g.healthy, fs) /\ FormatViol(fs) # {}
+             /\ (~r.quick \/ g.dmgdel),
+          {<<"ValidateSilent", <<r.quick, g.dmghow, FormatViol(fs)>> >>})
 
 VersionsMonitors(r) ==
        If(r.panic, {<<"Panic", r.pmsg>>})
@@ -361,19 +402,19 @@ DoLayout(r) ==
 
 DoDamage(r) ==
     /\ g' = [g EXCEPT !.healthy = IF g.damaged THEN @ ELSE fs, !.damaged = TRUE,
-                      !.dmgdel = r.how = "delete", !.adopt = TRUE]
+                      !.dmgdel = r.how = "delete", !.dmghow = r.how, !.dmgkey = r.key, !.adopt = TRUE]
     /\ UNCHANGED <<fs, viol>>
 
 DoSave(r) ==
     /\ g' = [g EXCEPT !.saved = Append(@, [fs |-> fs, src |-> g.src, snap |-> g.snap, partial |-> g.partial, owner |-> g.owner, winners |-> g.winners,
-                                            healthy |-> g.healthy, damaged |-> g.damaged, dmgdel |-> g.dmgdel])]
+                                            healthy |-> g.healthy, damaged |-> g.damaged, dmgdel |-> g.dmgdel, dmghow |-> g.dmghow, dmgkey |-> g.dmgkey])]
     /\ UNCHANGED <<fs, viol>>
 
 DoReset(r) ==
     LET s == g.saved[Len(g.saved)] IN
     /\ fs' = s.fs
     /\ g' = [g EXCEPT !.src = s.src, !.snap = s.snap, !.partial = s.partial, !.owner = s.owner, !.winners = s.winners, !.calls = <<>>,
-                      !.healthy = s.healthy, !.damaged = s.damaged, !.dmgdel = s.dmgdel]
+                      !.healthy = s.healthy, !.damaged = s.damaged, !.dmgdel = s.dmgdel, !.dmghow = s.dmghow, !.dmgkey = s.dmgkey]
     /\ viol' = viol
 
 DoUnsave(r) ==
